@@ -104,12 +104,20 @@ pub fn long_take(k: usize, n: usize) -> Vec<usize> {
 }
 
 /// Draw the index list of a `take` along an axis of length `dim`. Short space: every tuple of length
-/// <= 3. Long axis of the long family: every single index i, every pair (i, j) with j in {0, i, n-1},
-/// and the 6 structured full-length lists of `long_take`.
+/// <= 3. Long axis of the long family: every single index i, every pair (i, j) with j in {0, i, n-1}
+/// (thorough: every pair), and the 6 structured full-length lists of `long_take`.
 pub fn choose_take(dim: usize, long: bool) -> Vec<usize> {
     if !(long && dim >= crate::LONG_MIN) {
         let len = 1 + mc::choose(3);
         (0..len).map(|_| mc::choose(dim)).collect()
+    } else if long_deep() {
+        let k = mc::choose(2 + LONG_TAKES);
+        if k < 2 {
+            (0..k + 1).map(|_| mc::choose(dim)).collect()
+        } else {
+            mc::count("long_take_full_length");
+            long_take(k - 2, dim)
+        }
     } else {
         let k = mc::choose(4 + LONG_TAKES);
         if k < 4 {
@@ -129,10 +137,10 @@ pub fn choose_take(dim: usize, long: bool) -> Vec<usize> {
 
 /// Index ranges offered to `slice` along an axis of length n. Short space: every non-empty range.
 /// Long axis of the long family: every range that starts at 0, 1 or 2 or ends at n, n-1 or n-2
-/// (every length 1..n occurs, at both boundary alignments).
+/// (every length 1..n occurs, at both boundary alignments); thorough: every non-empty range.
 fn slice_ranges(n: usize, long: bool) -> Vec<(usize, usize)> {
     let all = ranges(n);
-    if long && n >= crate::LONG_MIN {
+    if long && n >= crate::LONG_MIN && !long_deep() {
         all.into_iter().filter(|(s, e)| *s <= 2 || *e + 2 >= n).collect()
     } else {
         all
